@@ -1497,7 +1497,9 @@ class C07(BaseMonitor):
         self.walk_all(-1, {"op": "initial"})
 
     def next_op(self, i):
-        return gen_mixed_op(self, i)
+        # read-side traffic is a quarter of the history here: an explanation that was faithful when computed can be
+        # falsified by a read that converts, rounds or otherwise mutates a recorded operand in place
+        return gen_mixed_op(self, i, p_read=0.25)
 
     def step(self, i, op):
         status = run_mixed_op(self, i, op)
